@@ -15,7 +15,7 @@ from fractions import Fraction as F
 from . import nf
 from .model import AnalysisError, ClassInfo, FunctionInfo, Program
 from .values import (
-    J, Arr2, BoolV, BoundExt, Buf, ClassV, DictV, EnumV, ExtObj, ExtV, FuncV, Inst, LambdaV,
+    J, Arr2, BoolV, BoundExt, Buf, ClassV, DictV, EnumV, ExtObj, ExtV, FuncV, GenV, Inst, LambdaV, PartialV,
     NoneV, Num, RangeV, SetV, SliceV, StarV, StrV, SuperV, TupV, Val, Vec, const_num, sym_num,
 )
 
@@ -55,6 +55,7 @@ EXT_SIGS = {
     "numpy.sum": ["a", "axis", "dtype", "out", "keepdims"],
     "numpy.cumsum": ["a", "axis", "dtype", "out"],
     "numpy.where": ["condition", "x", "y"],
+    "lmfit.minimize": ["fcn", "params", "method", "args", "kws", "iter_cb", "scale_covar", "nan_policy", "reduce_fcn", "calc_covar", "max_nfev"],
     "lmfit.Minimizer": ["userfcn", "params", "fcn_args", "fcn_kws", "iter_cb", "scale_covar", "nan_policy", "reduce_fcn", "calc_covar", "max_nfev"],
     "pandas.DataFrame": ["data", "index", "columns", "dtype", "copy"],
     "pandas.concat": ["objs"],
@@ -65,7 +66,7 @@ EXT_METHOD_SIGS = {
     "minimize": ["method", "params"],  # lmfit.Minimizer.minimize
 }
 
-_TABLE_METHODS = {"copy", "get", "keys", "items", "values", "update", "pop", "to_records", "to_numpy", "astype", "sum", "min", "max", "mean", "intersection", "rename", "drop", "reset_index", "sort_values"}
+_TABLE_METHODS = {"cumsum", "cumprod", "prod", "copy", "get", "keys", "items", "values", "update", "pop", "to_records", "to_numpy", "astype", "sum", "min", "max", "mean", "intersection", "rename", "drop", "reset_index", "sort_values"}
 
 IDENTITY_EXT = {
     "numpy.array", "numpy.asarray", "numpy.asanyarray", "numpy.ascontiguousarray", "float", "numpy.float64",
@@ -518,12 +519,25 @@ class Interp:
                 except _Break:
                     break
             return
+        if isinstance(it, GenV):
+            # run the generator's body; at every `yield v` bind the target to v and run the loop body
+            def consume(v):
+                self._assign(s.target, v, env, s)
+                try:
+                    self._exec_block(s.body, env)
+                except _Continue:
+                    pass
+                except _Break:
+                    raise _GenStop() from None
+
+            self.run_generator(it, consume)
+            return
         name = s.target.id if isinstance(s.target, ast.Name) else None
         if isinstance(it, RangeV):
-            self._assign(s.target, sym_num(name or "@k"), env, s)
+            self._assign(s.target, sym_num(self._counter_symbol(name, s) if name else "@k"), env, s)
         elif isinstance(it, EnumV):
             if isinstance(s.target, ast.Tuple) and len(s.target.elts) == 2 and isinstance(s.target.elts[0], ast.Name):
-                iv = sym_num(s.target.elts[0].id)
+                iv = sym_num(self._counter_symbol(s.target.elts[0].id, s))
                 self._assign(s.target.elts[0], iv, env, s)
                 self._assign(s.target.elts[1], self._index(it.inner, iv, s), env, s)
             else:
@@ -531,10 +545,64 @@ class Interp:
         else:
             # elementwise view of an array-like iterable
             self._assign(s.target, self._element_of(it), env, s)
+        self._loop_depth = getattr(self, "_loop_depth", 0) + 1
         try:
             self._exec_block(s.body, env)
         except (_Break, _Continue):
             pass
+        finally:
+            self._loop_depth -= 1
+
+    def run_generator(self, gen, consume):
+        if gen.consumed:
+            return  # an exhausted generator yields nothing
+        gen.consumed = True
+        self._yield_stack = getattr(self, "_yield_stack", [])
+        self._yield_stack.append((consume, len(self.stack)))
+        depth = getattr(self, "_loop_depth", 0)
+        try:
+            self._exec_function(gen.info, gen.bound, gen.self_val, gen.env, gen.owner)
+        except _GenStop:
+            pass
+        finally:
+            self._yield_stack.pop()
+            self._loop_depth = depth
+
+    def collect_generator(self, gen):
+        """list(gen): only for generators whose body has no loop (every yield is reached at most once per path)"""
+        if any(isinstance(n, (ast.For, ast.While)) for n in ast.walk(gen.info.node)):
+            raise AnalysisError(f"{gen.info.qualname}: a generator with a loop is consumed as a whole sequence (unsupported)")
+        out = []
+        self.run_generator(gen, out.append)
+        return TupV(out)
+
+    def _e_Yield(self, n, env):
+        v = self.eval(n.value, env) if n.value is not None else NoneV()
+        stack = getattr(self, "_yield_stack", None)
+        if not stack:
+            raise AnalysisError(f"{self.cur_func()}:{n.lineno}: yield outside a consumed generator")
+        # the consumer's body runs in the consumer's frame: suspend the generator's frames and its yield handler
+        consume, base = stack.pop()
+        frames = self.stack[base:]
+        del self.stack[base:]
+        try:
+            consume(v)
+        finally:
+            self.stack.extend(frames)
+            stack.append((consume, base))
+        return NoneV()
+
+    def _counter_symbol(self, name, s):
+        """Symbol for the counter of an index loop.  The counter of an outermost index loop is written `i` whatever it
+        is called in the source (step, k, n, ...), so that normal forms do not depend on the programmer's choice of
+        name - unless the enclosing function uses the name `i` for something else."""
+        if name == "i" or getattr(self, "_loop_depth", 0) > 0 or not self.stack:
+            return name
+        fn = self.stack[-1].node
+        for n in ast.walk(fn):
+            if isinstance(n, ast.Name) and n.id == "i" or isinstance(n, ast.arg) and n.arg == "i":
+                return name
+        return "i"
 
     def _element_of(self, it):
         if isinstance(it, (Num, Vec)):
@@ -548,6 +616,10 @@ class Interp:
             n = len(t.elts)
             if isinstance(v, TupV) and len(v.items) == n:
                 parts = v.items
+            elif isinstance(v, ExtObj) and v.qual == "zip" and v.args and all(k.isdigit() for k in v.args):
+                # a, b, ... = zip(s, t, ...): element k of the zip is the tuple (s[k], t[k], ...)
+                seqs = [v.args[k] for k in sorted(v.args, key=int)]
+                parts = [TupV([self._index(sq, const_num(i), stmt) for sq in seqs]) for i in range(n)]
             else:
                 base = self.to_nf(v)
                 parts = [Num(nf.fn("item", base, nf.const(i))) for i in range(n)]
@@ -1018,6 +1090,10 @@ class Interp:
             for c in base.cls.mro():
                 if attr in c.nested:
                     return ClassV(c.nested[attr])
+            for c in base.cls.mro():
+                if attr in c.class_attrs and attr not in c.fields:
+                    # plain class attribute (not a dataclass field): shared constant of the class
+                    return self.eval(c.class_attrs[attr], Env(None, c.module, None))
             if attr == "__dict__":
                 return ExtObj("__dict__", {"of": base}, node)
             return sym_num(f"{base.name}.{attr}")
@@ -1046,6 +1122,8 @@ class Interp:
             if attr == "shape":
                 return TupV([Num(base.length)])
             return BoundExt(base, attr)
+        if isinstance(base, TupV) and attr in base.names:
+            return base.items[base.names.index(attr)]
         if isinstance(base, (TupV, DictV, SetV, Buf, StrV, Arr2)):
             if isinstance(base, Arr2) and attr == "shape":
                 return TupV([Num(x) for x in base.shape])
@@ -1129,6 +1207,12 @@ class Interp:
             return Num(nf.fn("[]", nf.sym(base.name), self.to_nf(idx)))
         if isinstance(base, ExtObj) and base.qual == "__dict__":
             return Num(nf.fn("[]", self.to_nf(base), self.to_nf(idx)))
+        if isinstance(base, ExtObj) and isinstance(idx, Num) and nf.as_int(idx.nf) is not None and nf.as_int(idx.nf) >= 0 and "." in base.qual and not base.args.get("of"):
+            # element k of the tuple returned by an external call (fig, ax = f(); f()[1]): the same object either way
+            hk = ("extitem", id(base), nf.as_int(idx.nf))
+            if hk not in self.attr_heap:
+                self.attr_heap[hk] = ExtObj(base.qual + f"[{nf.as_int(idx.nf)}]", {"of": base}, base.node, uid=self.new_uid())
+            return self.attr_heap[hk]
         bn = self.to_nf(base)
         if _is_slice(idx) and isinstance(base, Num):
             lo, hi = _slice_bounds(idx)
@@ -1293,6 +1377,8 @@ class Interp:
             self.log("int_call", node, callee=fi.qualname, args=bound, recv=self_val, inlined=not is_opaque)
             if fi.qualname in self.stubs:
                 return self.stubs[fi.qualname](bound)
+            if not is_opaque and _is_generator(fi.node):
+                return GenV(fi, bound, self_val, callee.env, callee.owner or fi.cls)
             if is_opaque:
                 names = [p for p in fi.params + fi.kwonly if p in bound]
                 parts = [self.to_nf(bound[p]) for p in names]
@@ -1300,6 +1386,8 @@ class Interp:
                     parts = [self.to_nf(self_val)] + parts
                 return Num(nf.fn(fi.qualname, *parts))
             return self._exec_function(fi, bound, self_val, callee.env, callee.owner or fi.cls)
+        if isinstance(callee, PartialV):
+            return self.call(callee.func, list(callee.args) + list(args), {**callee.kwargs, **kwargs}, node, env)
         if isinstance(callee, LambdaV):
             sub = Env(callee.env, callee.module, callee.env.func if callee.env else None)
             a = callee.node.args
@@ -1344,6 +1432,27 @@ class Interp:
             return inst
         ext = ci.external_bases()
         fields = ci.all_fields()
+        if any(b.split(".")[-1] == "NamedTuple" for b in ext):
+            # typing.NamedTuple: an immutable tuple with named fields - modelled as the tuple it is
+            vals = {}
+            pos = list(args)
+            for f in fields:
+                if pos:
+                    vals[f] = pos.pop(0)
+            if pos:
+                raise AnalysisError(f"{self.cur_func()}: too many positional arguments for NamedTuple {ci.name}")
+            for k, v in kwargs.items():
+                if k not in fields:
+                    raise AnalysisError(f"{self.cur_func()}: NamedTuple {ci.name} has no field {k}")
+                vals[k] = v
+            for c in ci.mro():
+                for f, dv in c.class_attrs.items():
+                    if f in fields and f not in vals:
+                        vals[f] = self.eval(dv, Env(None, c.module, None))
+            missing = [f for f in fields if f not in vals]
+            if missing:
+                raise AnalysisError(f"{self.cur_func()}: NamedTuple {ci.name} constructed without {missing}")
+            return TupV([vals[f] for f in fields], names=tuple(fields))
         if ci.is_dataclass or any(c.is_dataclass for c in ci.mro()):
             bound = {}
             pos = list(args)
@@ -1429,6 +1538,13 @@ class Interp:
                 return DictV(dict(recv.items), list(recv.fallback))
             if meth == "get" and args and isinstance(args[0], StrV) and args[0].s in recv.items:
                 return recv.items[args[0].s]
+            if not recv.fallback and all(isinstance(k, str) for k in recv.items):
+                if meth == "items":
+                    return TupV([TupV([StrV(k), v]) for k, v in recv.items.items()])
+                if meth == "values":
+                    return TupV(list(recv.items.values()))
+                if meth == "keys":
+                    return TupV([StrV(k) for k in recv.items])
             if meth in ("keys", "items", "values"):
                 return recv
         if isinstance(recv, SetV) and meth == "issubset" and len(args) == 1 and all(isinstance(x, StrV) for x in recv.items):
@@ -1497,6 +1613,23 @@ _ARITH = {
     ast.Div: nf.div,
     ast.Pow: nf.power,
 }
+
+
+def _is_generator(fnode):
+    """the function's own body (not a nested def / lambda) contains yield"""
+    stack = list(fnode.body)
+    while stack:
+        n = stack.pop()
+        if isinstance(n, (ast.Yield, ast.YieldFrom)):
+            return True
+        if isinstance(n, (ast.FunctionDef, ast.AsyncFunctionDef, ast.Lambda, ast.ClassDef)):
+            continue
+        stack.extend(ast.iter_child_nodes(n))
+    return False
+
+
+class _GenStop(Exception):
+    """the consumer of a generator left its loop (break)"""
 
 
 def _has_all_descr(it, table, need):
@@ -1693,7 +1826,9 @@ def _h_arange(it, args, kwargs, bound, node, qual):
 
 def _h_full(it, args, kwargs, bound, node, qual):
     if "shape" in bound and "fill_value" in bound and isinstance(bound["shape"], Num):
-        return Vec(it.to_nf(bound["fill_value"]), bound["shape"].nf)
+        v = Vec(it.to_nf(bound["fill_value"]), bound["shape"].nf)
+        it.log("alloc_full", node, callee=qual, args=bound, result=v)
+        return v
     return None
 
 
@@ -1771,6 +1906,26 @@ def _h_getattr(it, args, kwargs, bound, node, qual):
     return it.getattr(obj, name, node)
 
 
+def _h_operator(it, args, kwargs, bound, node, qual):
+    """operator.gt(a, b) etc. are the comparison / arithmetic operators themselves"""
+    name = qual.split(".")[-1]
+    cmp_ops = {"gt": ast.Gt, "lt": ast.Lt, "ge": ast.GtE, "le": ast.LtE, "eq": ast.Eq, "ne": ast.NotEq, "is_": ast.Is, "is_not": ast.IsNot, "contains": None}
+    if name in cmp_ops and cmp_ops[name] is not None and len(args) == 2 and not kwargs:
+        return it._compare(cmp_ops[name](), args[0], args[1])
+    bin_ops = {"add": ast.Add, "sub": ast.Sub, "mul": ast.Mult, "truediv": ast.Div, "pow": ast.Pow}
+    if name in bin_ops and len(args) == 2 and not kwargs:
+        return it._binop(bin_ops[name](), args[0], args[1], node)
+    if name == "neg" and len(args) == 1:
+        return it._binop(ast.Sub(), const_num(0), args[0], node)
+    return None
+
+
+def _h_partial(it, args, kwargs, bound, node, qual):
+    if args and isinstance(args[0], (FuncV, LambdaV, PartialV, ClassV)):
+        return PartialV(args[0], list(args[1:]), dict(kwargs))
+    return None
+
+
 def _h_setattr(it, args, kwargs, bound, node, qual):
     if len(args) == 3 and isinstance(args[1], StrV):
         obj = args[0]
@@ -1797,6 +1952,17 @@ def _h_isinstance(it, args, kwargs, bound, node, qual):
 
 def _h_where(it, args, kwargs, bound, node, qual):
     if len(args) == 3 and isinstance(args[0], BoolV):
+        # np.where(x < c, c, x) / np.where(x > c, x, c) ... are the elementwise clamps maximum(x, c) / minimum(x, c)
+        t = args[0]
+        if t.kind == "cmp" and isinstance(args[1], Num) and isinstance(args[2], Num):
+            l, r, sym = t.a, t.b, t.op
+            a1, a2 = args[1].nf, args[2].nf
+            if sym in ("<", "<=", ">", ">=") and {nf.key(a1), nf.key(a2)} == {nf.key(l), nf.key(r)} and nf.key(l) != nf.key(r):
+                # picks the larger operand when (l < r and a1 is r) or (l > r and a1 is l)
+                takes_right = nf.key(a1) == nf.key(r)
+                larger = takes_right if sym in ("<", "<=") else not takes_right
+                name = "maximum" if larger else "minimum"
+                return _h_fn(name, sort=True)(it, [Num(l), Num(r)], {}, {}, node, "numpy." + name)
         # np.where(P, a, b) is the elementwise form of `a if P else b`: partition on P
         return args[1] if it.decide(args[0], node) else args[2]
     if len(args) == 3:
@@ -1899,6 +2065,8 @@ _EXT_HANDLERS = {
     "warnings.simplefilter": _h_none,
     "hasattr": _h_hasattr,
     "getattr": _h_getattr,
+    "functools.partial": _h_partial,
+    **{"operator." + k: _h_operator for k in ("gt", "lt", "ge", "le", "eq", "ne", "is_", "is_not", "add", "sub", "mul", "truediv", "pow", "neg")},
     "setattr": _h_setattr,
     "delattr": _h_delattr,
     "isinstance": _h_isinstance,
@@ -1906,3 +2074,44 @@ _EXT_HANDLERS = {
 }
 for _q in IDENTITY_EXT:
     _EXT_HANDLERS[_q] = _h_identity
+
+
+def _h_sequence(it, args, kwargs, bound, node, qual):
+    """tuple(x) / list(x): the keys of a literal dict, the items of a loop-free generator, else x itself"""
+    if len(args) == 1 and isinstance(args[0], DictV) and not args[0].fallback and all(isinstance(k, str) for k in args[0].items):
+        return TupV([StrV(k) for k in args[0].items], qual == "list")
+    if len(args) == 1 and isinstance(args[0], GenV):
+        t = it.collect_generator(args[0])
+        t.is_list = qual == "list"
+        return t
+    return _h_identity(it, args, kwargs, bound, node, qual)
+
+
+def _h_tile(it, args, kwargs, bound, node, qual):
+    """np.tile(v, (n, 1)) of a 1-D sequence v: n identical rows - represented by the generic row"""
+    if len(args) == 2 and isinstance(args[0], TupV) and isinstance(args[1], TupV) and len(args[1].items) == 2:
+        last = args[1].items[1]
+        if isinstance(last, Num) and nf.as_int(last.nf) == 1:
+            return TupV(list(args[0].items), rowview=True)
+    return None
+
+
+def _h_column_stack(it, args, kwargs, bound, node, qual):
+    """np.column_stack([rows..., column, rows...]): the generic row is the concatenation of the parts' generic rows"""
+    if len(args) != 1 or not isinstance(args[0], TupV):
+        return None
+    out = []
+    for part in args[0].items:
+        if isinstance(part, TupV) and part.rowview:
+            out.extend(part.items)
+        elif isinstance(part, (Vec, Num)) and not isinstance(part, TupV):
+            out.append(it._element_of(part))
+        else:
+            return None
+    return TupV(out, rowview=True)
+
+
+_EXT_HANDLERS["numpy.tile"] = _h_tile
+_EXT_HANDLERS["numpy.column_stack"] = _h_column_stack
+_EXT_HANDLERS["tuple"] = _h_sequence
+_EXT_HANDLERS["list"] = _h_sequence
